@@ -325,6 +325,9 @@ impl<'tcx> Cx<'tcx> {
             Operand::Constant(c) => {
                 let t = c.const_.ty();
                 let mut v = vec![("k", s("const")), ("ty", s(self.tys(t)))];
+                if let Some(d) = c.check_static_ptr(self.tcx) {
+                    v.push(("static", s(self.path(d))));
+                }
                 match t.kind() {
                     ty::FnDef(d, a) => {
                         v.push(("fn", s(self.path(*d))));
